@@ -220,6 +220,17 @@ def make_tablemap_class():
         def _t(self, key):
             return float(self.table.get('t:' + key, 0.5))
 
+        # symbol provider (names only): lets the claim builders of latticelib/matchlib run on a concrete replay;
+        # the resulting formulas are then evaluated under the table (eval_under).
+        def q(self, key):
+            return z3.Real("q_" + key)
+
+        def t(self, key):
+            return E.Sym(z3.Real("t_" + key))
+
+        def sq(self, key):
+            return E.Sym(z3.Real("d_" + key), sq=z3.Real("q_" + key))
+
         def _distance(self, p1, p2):
             a, b = pname(p1), pname(p2)
             if a == b:
@@ -235,6 +246,59 @@ def make_tablemap_class():
             return self._d(k), P("pf:" + k), P("pt:" + k), self._t("f:" + k), self._t("t:" + k)
 
     return TableMap
+
+
+class ModelTable:
+    """dict-like table backed by a solver model: 'd:<key>' -> sqrt(model[q_<key>]), 't:<key>' -> model[t_<key>];
+    symbols the model does not mention evaluate to 0 (model completion).  Records what was accessed."""
+
+    def __init__(self, model):
+        self.model = model
+        self.accessed = {}
+
+    def get(self, k, default=None):
+        if k not in self.accessed:
+            if k.startswith('d:'):
+                v = max(E.model_value(self.model, z3.Real("q_" + k[2:])), 0.0) ** 0.5
+            else:
+                v = E.model_value(self.model, z3.Real("t_" + k[2:]))
+            self.accessed[k] = v
+        return self.accessed[k]
+
+
+def eval_under(formula, table, extra=None):
+    """Evaluate a z3 formula over q_/d_/t_ symbols under a concrete table (d, t floats; q := d*d) and extra
+    name->float values (thresholds).  Returns True/False/None(undetermined)."""
+    import fractions
+    if isinstance(formula, bool):
+        return formula
+    subs = []
+    for i, v in E.vars_of(formula, {}).items():
+        n = v.decl().name()
+        val = None
+        if n.startswith('q_'):
+            d = float(table.get('d:' + n[2:], 0.0))
+            val = fractions.Fraction(d) * fractions.Fraction(d)
+        elif n.startswith('d_'):
+            val = fractions.Fraction(float(table.get('d:' + n[2:], 0.0)))
+        elif n.startswith('t_'):
+            val = fractions.Fraction(float(table.get('t:' + n[2:], 0.0)))
+        elif extra is not None and n in extra:
+            x = extra[n]
+            if x in (float('inf'), -float('inf')):
+                x = 1e300 if x > 0 else -1e300
+            val = fractions.Fraction(float(x))
+        if val is not None:
+            if z3.is_bool(v):
+                subs.append((v, z3.BoolVal(bool(val))))
+            else:
+                subs.append((v, z3.Q(val.numerator, val.denominator)))
+    r = z3.simplify(z3.substitute(formula, *subs)) if subs else z3.simplify(formula)
+    if z3.is_true(r):
+        return True
+    if z3.is_false(r):
+        return False
+    return None
 
 
 def table_from_model(model, memo):
